@@ -378,6 +378,28 @@ func (c *Ctx) journal(kind string, cs any) {
 // a non-recoverable process death still leaves a replay file.
 var journalOn = map[string]bool{}
 
+// journalled says whether the cases of this sub-check are written down before they run: switched on for a whole
+// property ("C01") or for one of its sub-checks ("C07/concurrent-callers").
+func (c *Ctx) journalled(kind string) bool {
+	return journalOn[c.ID] || journalOn[c.ID+"/"+kind]
+}
+
+// closeJournal forgets the last journalled case once its sub-check has come to an end, so that a death in a later
+// sub-check of the same process is not pinned on it.
+func (c *Ctx) closeJournal() {
+	if c.OutDir != "" {
+		_ = os.Remove(filepath.Join(c.OutDir, fmt.Sprintf("journal-%d.json", c.Shard)))
+	}
+}
+
+func init() {
+	// the checks whose cases cost far more than writing them down (loads, traversals, derived projects): a stack
+	// overflow, a deadlock of all goroutines or a concurrent map write ends the process and cannot be recovered
+	for _, id := range []string{"C02", "C03", "C04", "C05", "C06", "C08", "C09", "C10", "C11", "C12", "C13", "C14", "C16", "C17", "C20", "C07/concurrent-callers", "C07/document"} {
+		journalOn[id] = true
+	}
+}
+
 func replayOne[C any](c *Ctx, t *testing.T, kind string, raw json.RawMessage, check func(*Ctx, C) *Failure, origin string) {
 	var cs C
 	if err := json.Unmarshal(raw, &cs); err != nil {
@@ -457,7 +479,10 @@ func RunRapid[C any](c *Ctx, t *testing.T, s Sub[C]) {
 	c.curKind = s.Kind
 	before := c.evals
 	t0 := time.Now()
-	jr := journalOn[c.ID]
+	jr := c.journalled(s.Kind)
+	if jr {
+		defer c.closeJournal()
+	}
 	var lastFail string
 	ok := t.Run(s.Kind, func(t *testing.T) {
 		rapid.Check(t, func(rt *rapid.T) {
@@ -495,7 +520,10 @@ func RunEnum[C any](c *Ctx, t *testing.T, kind string, n int, at func(i int) C, 
 	c.curKind = kind
 	before := c.evals
 	t0 := time.Now()
-	jr := journalOn[c.ID]
+	jr := c.journalled(kind)
+	if jr {
+		defer c.closeJournal()
+	}
 	failedSigs := map[string]bool{}
 	for i := c.Shard; i < n; i += c.NShards {
 		cs := at(i)
